@@ -66,6 +66,33 @@ def theorem_names(lean_module):
     return names, path
 
 
+def gen_cone_methods(gen_mod, srep):
+    """Python names of the functions translated by tools/translate_stog.py that are mentioned (as whole words) in `gen_mod` or in the
+    Refine/*Gen modules it imports, transitively"""
+    seen, todo, text = set(), [gen_mod], ""
+    while todo:
+        m = todo.pop()
+        if m in seen:
+            continue
+        seen.add(m)
+        path = os.path.join(LEAN_DIR, *m.split(".")) + ".lean"
+        try:
+            src = open(path).read()
+        except OSError:
+            continue
+        text += src
+        for imp in re.findall(r"^import (PystogVerif\.(?:Refine\.\w+|Props\.C\d+Gen))\s*$", src, flags=re.M):
+            todo.append(imp)
+    out = []
+    for py in srep:
+        ln = py[2:] if py.startswith("__") else py
+        ln = {"init__": "init_state"}.get(ln, ln)
+        names = [ln] + (["construct", "init_state"] if py == "__init__" else []) + (["write_out_to_file_text"] if py == "_write_out_to_file" else [])
+        if any(re.search(r"(?<![\w.])(?:GenStog\.)?" + re.escape(n) + r"(?![\w])", text) for n in names):
+            out.append(py)
+    return out
+
+
 def lean_stage(mod, tier, log):
     """regenerate, build, audit. returns a dict."""
     res = dict(build_ok=False, obligations=[], discharged=[], failed=[], refused=[], axioms={}, grep=[], messages="")
@@ -97,6 +124,11 @@ def lean_stage(mod, tier, log):
             except Exception:  # noqa: BLE001
                 srep = {}
             need = list(getattr(mod, "STOG_METHODS", []))
+            # ... plus every generated function that the module about generated code, or a refinement file it imports, mentions: a
+            # refusal anywhere in that cone means "this tie is not available on this tree", not a broken proof
+            for m in gen_cone_methods(gen_mod, srep):
+                if m not in need:
+                    need.append(m)
             bad = {m: srep.get(m, "translator failed: " + out_s[-300:]) for m in need if srep.get(m) != "ok"}
             if bad:
                 res["stog_tie"] = dict(tie="correspondence only", refused=bad)
